@@ -3338,3 +3338,274 @@ def gcc_conference(ctx, mir, stats):
         obs.append({"id": "gcc:%s:results-propagated" % kind, "ok": not unchecked, "functions": [f.name], "where": f.name, "needs_native": True, "native": None if not unchecked else GCC_CONF_NATIVE,
                     "detail": "the result of every PER primitive in %s is tested" % f.name if not unchecked else "results of the PER primitives in %s are not tested" % unchecked})
     return obs
+
+
+# --------------------------------------------------------------------------
+# C04 / C18: field layouts of the record constructors against the structures of MS-RDPBCGR / T.125 / X.224
+# --------------------------------------------------------------------------
+def _box_type(v):
+    if not v.startswith("CALL Box::<"):
+        return None, v
+    depth, i = 0, len("CALL Box::")
+    start = i + 1
+    while i < len(v):
+        if v[i] == "<":
+            depth += 1
+        elif v[i] == ">":
+            depth -= 1
+            if depth == 0:
+                break
+        i += 1
+    return v[start:i], v[i + 1:]
+
+
+def _check_const(rest):
+    import mirq
+    m = re.search(r"const ((?:\w+::)+\{constant#0\})", rest)
+    if m:
+        rc = mirq.resolve_const(m.group(1))
+        if rc:
+            return " =%d" % rc[0]
+    c = re.search(r"const (\d+)_u", rest)
+    return " =%s" % c.group(1) if c else ""
+
+
+def classify_field(v):
+    T, rest = _box_type(v)
+    if T is None:
+        return "?" + v[:40]
+    end = re.search(r"Value::<u(?:16|32)>::(LE|BE)\(", rest)
+    e = end.group(1) if end else ""
+    m = re.match(r"^Value<u(16|32)>$", T)
+    if m:
+        return "U%s%s" % (m.group(1), e)
+    if T == "u8":
+        return "U8"
+    m = re.match(r"^Option<Value<u(16|32)>>$", T)
+    if m:
+        return "OPT U%s%s" % (m.group(1), e)
+    m = re.match(r"^Check<Value<u(16|32)>>$", T)
+    if m:
+        return "CHECK U%s%s%s" % (m.group(1), e, _check_const(rest))
+    if T == "Check<u8>":
+        return "CHECK U8%s" % _check_const(rest)
+    m = re.match(r"^DynOption<Value<u(16|32)>>$", T)
+    if m:
+        return "DYN U%s%s" % (m.group(1), e)
+    if T == "DynOption<u8>":
+        return "DYN U8"
+    if T == "Vec<u8>":
+        n = re.search(r"from_elem::<u8>\(const \d+_u8, const (\d+)_usize\)", rest)
+        if n:
+            return "BYTES %s" % n.group(1)
+        lit = re.search(r'(const b"(?:[^"\\]|\\.)*")', rest)
+        if lit and _bytes_literal_len(lit.group(1)) is not None:
+            return "BYTES %d" % _bytes_literal_len(lit.group(1))
+        return "BYTES"
+    m = re.match(r"^data::Array<(.*)>$", T)
+    if m:
+        inner = m.group(1)
+        mm = re.match(r"^Value<u(16|32)>$", inner)
+        return "ARRAY " + ("U%s" % mm.group(1) if mm else ("COMPONENT" if inner.startswith("IndexMap<") else inner))
+    if T.startswith("IndexMap<"):
+        c = re.match(r"^\(CALL (\w+)\(", rest)
+        return "COMPONENT" + (" " + c.group(1) if c else "")
+    if T.startswith("Option<IndexMap<"):
+        return "OPT COMPONENT"
+    if T == "Vec<Box<dyn Message>>":
+        return "TRAME"
+    return T
+
+
+def extract_layout(f, stats):
+    se = SymExec(f, stats, max_paths=6000, loop_bound=0).run()
+    paths = se.finished + [a[0] for a in se.asserts]
+    if not paths:
+        return None
+    pat = r"IndexMap::<String, Box<dyn Message>>::insert$"
+    p = max(paths, key=lambda q: len(calls_on(q.events, pat)))
+    out = []
+    for i, e in calls_on(p.events, pat):
+        k = re.search(r'const "(\w+)"', resolve_source(p.events, i, e[4][1], depth=6))
+        v = resolve_source(p.events, i, e[4][2], depth=10)
+        out.append((k.group(1) if k else "?", classify_field(v)))
+    return out
+
+
+# --------------------------------------------------------------------------
+# C04: the two UTF-16LE string encoders (model::unicode::to_unicode, nla::ntlm::unicode)
+# --------------------------------------------------------------------------
+UTF16_NATIVE = {"test": "verif_replay_utf16_encoders", "files": {"src/nla/ntlm.rs": """
+#[cfg(test)]
+mod verif_replay_utf16_encoders_mod {
+    use super::*;
+    use model::unicode::Unicode;
+    /// UTF-16LE written from the definition (Unicode 3.9, D91)
+    fn reference(s: &str) -> Vec<u8> {
+        let mut out = vec![];
+        for c in s.chars() {
+            let v = c as u32;
+            if v < 0x10000 { out.push(v as u8); out.push((v >> 8) as u8); }
+            else { let w = v - 0x10000; let hi = 0xd800 + (w >> 10); let lo = 0xdc00 + (w & 0x3ff);
+                   out.push(hi as u8); out.push((hi >> 8) as u8); out.push(lo as u8); out.push((lo >> 8) as u8); }
+        }
+        out
+    }
+    #[test]
+    fn verif_replay_utf16_encoders() {
+        for s in ["", "a", "foo", "\\u{e9}t\\u{e9}", "\\u{65e5}\\u{672c}", "\\u{ffff}", "\\u{10000}", "\\u{10437}", "x\\u{1F600}y", "\\u{1D800}", "\\u{10FFFF}", "P\\u{e4}ssw\\u{f6}rd\\u{1F511}"].iter() {
+            assert_eq!(unicode(&s.to_string()), reference(s), "nla::ntlm::unicode({:?})", s);
+            assert_eq!(s.to_string().to_unicode(), reference(s), "String::to_unicode({:?})", s);
+        }
+    }
+}
+"""}}
+
+
+def utf16_encoders(ctx, mir, stats):
+    """E2: both encoders iterate `str::encode_utf16`, write every unit it yields, unconverted, as a little-endian 16-bit value, and return the buffer;
+    nothing is skipped (no filter/take/skip adaptors, no branch on the unit's value)."""
+    obs = []
+    for fn_re, label in ((r"^unicode$", "nla::ntlm::unicode"), (r"^unicode::<impl at src/model/unicode\.rs[^>]*>::to_unicode$", "String::to_unicode")):
+        f = find_fn(mir, fn_re)
+        enc = call_blocks(f, r"core::str::<impl str>::encode_utf16$")
+        nxt = call_blocks(f, r"<EncodeUtf16<'_> as Iterator>::next$")
+        wr = call_blocks(f, r"<Value<u16> as Message>::write$")
+        other_iter = [f.blocks[b].t["func"] for b in f.order if f.blocks[b].t and f.blocks[b].t["kind"] == "call" and not f.blocks[b].cleanup and
+                      re.search(r"::chars$|::bytes$|::filter|::take|::skip|::step_by|::rev$|::map::<|char_indices|as_bytes", f.blocks[b].t["func"])]
+        stmts = [s for b in f.order if not f.blocks[b].cleanup for s in f.blocks[b].stmts]
+        casts = [s for s in stmts if re.search(r" as u16 \(IntToInt\)| as u8 \(IntToInt\)", s)]
+        le = [s for s in stmts if re.search(r"= Value::<u16>::LE\(copy _\d+\);", s)]
+        be = [s for s in stmts if re.search(r"Value::<u16>::BE\(", s)]
+        unit = [s for s in stmts if re.search(r"= copy \(\(_\d+ as Some\)\.0: u16\);", s)]
+        flow = False
+        if len(le) == 1 and len(unit) == 1:
+            src = re.search(r"LE\(copy (_\d+)\)", le[0]).group(1)
+            flow = unit[0].strip().startswith(src + " = ")
+        # every switch in the function is the Option discriminant of next() (loop exit) or a drop flag
+        sw = [f.blocks[b].t for b in f.order if f.blocks[b].t and f.blocks[b].t["kind"] == "switch" and not f.blocks[b].cleanup]
+        value_branch = []
+        for t in sw:
+            op = re.sub(r"^(move|copy) ", "", t["operand"]).strip()
+            d = [s for s in stmts if s.startswith(op + " = ")]
+            if not (d and re.search(r"= discriminant\(_\d+\);$", d[0])) and not re.match(r"^_\d+$", op) or (d and not re.search(r"discriminant|const (true|false)", d[0])):
+                value_branch.append(t["operand"])
+        ok = len(enc) == 1 and len(nxt) == 1 and len(wr) == 1 and not other_iter and not casts and not be and flow and not value_branch
+        obs.append({"id": "utf16:%s" % label, "ok": ok, "functions": [f.name], "where": f.name, "needs_native": True, "native": None if ok else UTF16_NATIVE,
+                    "detail": "%s writes every unit of str::encode_utf16, unconverted, as U16::LE" % label if ok else
+                    "%s is not the plain encode_utf16 -> U16::LE loop (encode_utf16 calls %d, next %d, writes %d, other iterators %s, casts %s, big-endian %d, unit flows to LE: %s, value branches %s)" % (
+                        label, len(enc), len(nxt), len(wr), other_iter[:2], casts[:2], len(be), flow, value_branch[:2])})
+    return obs
+
+
+def _layout_native(name, entry):
+    """Generated native replay for one reference layout: read the reference encoding (distinct byte values), compare every scalar field, write it back,
+    and accept every prefix that ends before an optional trailing field. None when the layout has kinds the generator does not cover."""
+    fields = entry["fields"]
+    if not entry.get("ctor"):
+        return None
+    inp, checks, cuts = [], [], []
+    ctr = [0]
+
+    def nxt(n):
+        out = []
+        for _ in range(n):
+            ctr[0] += 1
+            out.append((ctr[0] * 7 + 1) & 0xff)
+        return out
+    prev_dyn = False
+    for idx, (fname, kind) in enumerate(fields):
+        m = re.match(r"^(CHECK |OPT |DYN )?U(8|16|32)(LE|BE)?(?: =(\d+))?$", kind)
+        if m:
+            pre, w, end, const = m.group(1) or "", int(m.group(2)) // 8, m.group(3) or "LE", m.group(4)
+            if pre == "OPT ":
+                if any(not k.startswith("OPT ") for _n, k in fields[idx:]):
+                    return None
+                cuts.append(len(inp))
+            if pre == "DYN ":
+                val = 0
+                b = [0] * w
+            elif const is not None:
+                val = int(const)
+                b = [(val >> (8 * i)) & 0xff for i in range(w)]
+                if end == "BE":
+                    b = b[::-1]
+            else:
+                b = nxt(w)
+                bb = b if end == "LE" else b[::-1]
+                val = sum(x << (8 * i) for i, x in enumerate(bb))
+            inp += b
+            checks.append('            assert_eq!(cast!(DataType::U%d, c["%s"]).unwrap() as u64, 0x%x_u64, "%s.%s");' % (w * 8, fname, val, name, fname))
+            prev_dyn = prev_dyn or pre == "DYN "
+            continue
+        m = re.match(r"^BYTES(?: (\d+))?$", kind)
+        if m:
+            if m.group(1):
+                n = int(m.group(1))
+            elif prev_dyn:
+                n = 0
+            elif idx == len(fields) - 1:
+                n = 3
+            else:
+                return None
+            a = len(inp)
+            inp += nxt(n)
+            checks.append('            assert_eq!(cast!(DataType::Slice, c["%s"]).unwrap(), &input[%d..%d], "%s.%s");' % (fname, a, a + n, name, fname))
+            continue
+        return None
+    body = "            // %s\n            let input: Vec<u8> = vec![%s];\n            let mut c = %s;\n            c.read(&mut Cursor::new(input.clone())).expect(\"%s: the reference encoding is refused\");\n" % (
+        entry["ref"], ", ".join(str(x) for x in inp), entry["ctor"], name)
+    body += "\n".join(checks) + "\n"
+    body += '            assert_eq!(to_vec(&c), input, "%s written back");\n' % name
+    for cut in cuts:
+        body += '            let mut c = %s;\n            c.read(&mut Cursor::new(input[..%d].to_vec())).expect("%s: the encoding that ends before an optional trailing field (%d bytes) is refused");\n' % (entry["ctor"], cut, name, cut)
+        body += '            assert_eq!(to_vec(&c), input[..%d].to_vec(), "%s without its optional tail written back");\n' % (cut, name)
+    test = "verif_replay_layout_%s" % name
+    code = """
+#[cfg(test)]
+mod %s_mod {
+    #[allow(unused_imports)]
+    use super::*;
+    #[allow(unused_imports)]
+    use std::io::Cursor;
+    #[allow(unused_imports)]
+    use model::data::{DataType, Message, to_vec};
+    #[allow(unused_imports)]
+    use model::error::{Error, RdpError, RdpErrorKind};
+    #[test]
+    fn %s() {
+        {
+%s        }
+    }
+}
+""" % (test, test, body)
+    return {"test": test, "files": {entry["file"]: code}}
+
+
+def layout_tables(ctx, mir, stats):
+    """E2/E3: every record constructor is walked on its complete path; the (name, kind) sequence inserted into the record is compared with the
+    reference table transcribed from the specifications (lib/layouts.py). A difference is confirmed by a generated native test that reads the
+    reference encoding of that structure (distinct byte values), compares every field, writes it back and tries every optional-tail prefix."""
+    import layouts
+    obs = []
+    for name, entry in sorted(layouts.LAYOUTS.items()):
+        pat = r"^%s$" % re.escape(name)
+        cands = [f for f in mir if re.search(pat, f.name)]
+        if len(cands) != 1:
+            obs.append({"id": "layout:%s" % name, "ok": False, "functions": [], "where": entry["file"], "needs_native": True, "native": _layout_native(name, entry),
+                        "detail": "constructor %s not found in the MIR (%d candidates): %s" % (name, len(cands), entry["ref"])})
+            continue
+        f = cands[0]
+        try:
+            got = extract_layout(f, stats)
+        except Inconclusive as e:
+            got = None
+        ref = [tuple(x) for x in entry["fields"]]
+        ok = got == ref
+        if ok:
+            detail = "%s = %s (%s)" % (name, ", ".join("%s:%s" % x for x in ref)[:160], entry["ref"])
+        else:
+            diff = [(a, b) for a, b in zip(got or [], ref) if a != b]
+            detail = "%s differs from %s: %s" % (name, entry["ref"], ("first difference: code has %s, reference has %s" % diff[0]) if diff else "field count %d vs %d (code %s)" % (len(got or []), len(ref), [x for x in (got or []) if x not in ref][:3]))
+        obs.append({"id": "layout:%s" % name, "ok": ok, "functions": [f.name], "where": f.name, "needs_native": True, "native": None if ok else _layout_native(name, entry), "detail": detail})
+    return obs
